@@ -203,7 +203,7 @@ func (m *Engine) matchBind(keys []byte, binds map[string]inputrc.Bind) (inputrc.
 		switch {
 		case !utf8.FullRune(keys):
 			prefixed = append(prefixed, inputrc.Bind{Action: "self-insert"})
-		case match.Action == "" && char != utf8.RuneError && size == len(keys):
+		case match.Action == "" && (char != utf8.RuneError || size > 1) && size == len(keys):
 			match = inputrc.Bind{Action: "self-insert"}
 		}
 	}
